@@ -41,7 +41,7 @@ VARIANT_EDITS = ["salt", "var_value", "var_list", "dep_env", "dep_env", "provide
 def plan(tier):
     if tier == "thorough":
         return {"cases": 2500, "timeout": 600, "wall_budget": 1700, "recheck": 5, "nproc": 6}
-    return {"cases": 36, "timeout": 400, "wall_budget": 65, "recheck": 2, "nproc": 6}
+    return {"cases": 60, "timeout": 400, "wall_budget": 110, "recheck": 2, "nproc": 6}
 
 def gen_case(rng, tier, index):
     feats = {"vars", "depenv", "diamond", "checkoutscript"} | set(rng.sample(["import", "provideVars", "tools", "classes", "forward", "provideDeps", "passthrough", "passthrough"], rng.randint(0, 4)))
